@@ -333,6 +333,21 @@ def stage_real(study):
         return "RAISE:Exception", None
 
 
+def tables_real(study, staged_out):
+    """the tables `_stage` leaves behind (`used_params`, `step_combos`, `hub_depends`, `depends`,
+    `workspaces`), keys and members sorted; the staging error when there was one"""
+    if not staged_out.startswith("ok"):
+        return staged_out
+
+    def by_key(d):
+        return ";".join("%s:%s" % (hx(k), ",".join(hx(str(x)) for x in sorted(str(y) for y in d[k])))
+                        for k in sorted(d))
+    ws = ";".join("%s:%s" % (hx(k), hx(study.workspaces[k])) for k in sorted(study.workspaces))
+    return "ok used=%s combos=%s hub=%s depends=%s ws=%s" % (
+        by_key(study.used_params), by_key(study.step_combos), by_key(study.hub_depends),
+        by_key(study.depends), ws)
+
+
 def model_lines(root, hash_ws, rlimit, params, steps, md5):
     lines = ["exp.begin root=%s hash=%d rlimit=%d" % (hx(root), int(hash_ws), rlimit)]
     for p in params:
